@@ -24,6 +24,23 @@ def drive(kind, seed):
         # every other stack with many @optional marks and possibly-missing arguments (the C18 flavour of S-BAG)
         st = gen_stack(rng, max_layers=6) if seed % 2 else gen_stack(rng, max_layers=6, p_avail=0.6, p_opt=0.55)
         nested = suite_bag.nest(random.Random(seed + 1), st)
+        if rng.random() < 0.25 and st['layers'] and st['layers'][0]['k'] == 'source':
+            # a Source that is not at the head: a Transform computing the key comes first (the right operand of a connect_bags
+            # call then carries persistent names)
+            head = {'k': 'transform', 'cls': 'PreKey', 'fields': {'id': {'args': ['key'], 'f': 'prekey.id'}}, 'params': {}, 'cargs': {},
+                    'defaults': {}}
+            nested = {'k': 'chain', 'flavour': 'chain', 'layers': [head] + st['layers']}
+            # the same Transform class is then used in front of something else: what it was composed with before must not matter
+            try:
+                b0 = Builder()
+                hl = b0.layer(head)
+                (hl >> b0.layer(st['layers'][0]))
+                tail = [l for l in st['layers'][1:] if l['k'] == 'transform'][:1]
+                if tail:
+                    t2 = hl >> b0.layer(tail[0])
+                    dir(t2)
+            except Exception:
+                pass
         b, layer, err = suite_bag.build(nested or st)
         if layer is not None:
             try:
